@@ -1327,6 +1327,7 @@ fn run_history(id: &str, mode: &str, body: &str, pad: usize, out: &mut impl Writ
     let _ = writeln!(out, "H {}", id);
     let n = ops.len();
     let mut line = String::with_capacity(512);
+    let mut any_panic = false;
     for (idx, a) in ops.iter().enumerate() {
         let w_ = w();
         w_.cur_idx = idx;
@@ -1412,6 +1413,7 @@ fn run_history(id: &str, mode: &str, body: &str, pad: usize, out: &mut impl Writ
                 res_str(res, &mut line);
             }
             Err(e) => {
+                any_panic = true;
                 if e.is::<PanicMarker>() {
                     line.push_str("panic");
                 } else {
@@ -1514,6 +1516,26 @@ fn run_history(id: &str, mode: &str, body: &str, pad: usize, out: &mut impl Writ
         }
     }
     let _ = writeln!(out, "F live={}", unsafe { crate::LIVE_BLOCKS });
+    // C04, judged on the implementation alone: the history is over, no call panicked or faulted, every
+    // object it created has been destroyed (or unwrapped), the program holds no handle, raw pointer or
+    // loose value any more -- then the process must hold exactly the heap memory it held at the start
+    {
+        let w_ = w();
+        let full = w_.fault.is_none()
+            && !any_panic
+            && !w_.d4
+            && !w_.escaped
+            && w_.alive.iter().all(|a| !*a)
+            && w_.regs.iter().all(|r| matches!(r, Reg::Empty));
+        let live = unsafe { crate::LIVE_BLOCKS };
+        if full && live != 0 {
+            let _ = writeln!(
+                out,
+                "G oracle=C04:memory-held-after-full-collection:{} disc={}",
+                live, w_.disciplined as u8
+            );
+        }
+    }
     let _ = writeln!(out, "E {}", id);
 }
 
